@@ -53,6 +53,14 @@ pub fn distparse(input: &Value) -> Out {
     if !consistent {
         o["inconsistent"] = json!("T");
     }
+    // lookups by names that may or may not be recorded: [found by get_distfile, by get_patchfile]
+    if let Some(ps) = input.get("probes").and_then(|p| p.as_array()) {
+        let hits: Vec<Value> = ps.iter().map(|p| {
+            let name = PathBuf::from(OsString::from_vec(to_bytes(p)));
+            json!([tf(d.get_distfile(&name).is_some()), tf(d.get_patchfile(&name).is_some())])
+        }).collect();
+        o["hits"] = json!(hits);
+    }
     let n = (d.distfiles().len() + d.patchfiles().len()) as u64;
     Out::new(o, 2 + n, (n > 0) as u64)
 }
@@ -217,9 +225,31 @@ pub fn verify(input: &Value) -> Out {
     // actual digests as the oracle computes them from the claims (for the Checksum error's "actual")
     let actual_plain: Vec<Value> = (0..6).map(|a| codes(&oracle(a, &claim_plain))).collect();
     let actual_patch: Vec<Value> = (0..6).map(|a| codes(&oracle(a, &claim_patch))).collect();
+    // "rewrite" = k > 0: the file is then overwritten in place - same path, same length, same
+    // modification time (what cp -p / rsync -t leave behind), byte k (1-based) changed - and
+    // verified again: the verdict is about the file's current content
+    let mut again = json!({});
+    let k = input.get("rewrite").and_then(|k| k.as_u64()).unwrap_or(0) as usize;
+    if k >= 1 && k <= content.len() {
+        let mtime = std::fs::metadata(&full).and_then(|m| m.modified()).ok();
+        let mut c2 = content.clone();
+        c2[k - 1] = c2[k - 1].wrapping_add(1);
+        std::fs::write(&full, &c2).unwrap();
+        if let Some(t) = mtime {
+            if let Ok(f) = std::fs::File::options().write(true).open(&full) { let _ = f.set_modified(t); }
+        }
+        let claim_patch2 = patch_filter_claim(&c2);
+        let sums2: Vec<Value> = ALGS.iter().map(|a| match d.verify_checksum(&full, *a) {
+            Ok(x) => json!(["Ok", alg_index(&x)]),
+            Err(e) => err_json(&e),
+        }).collect();
+        again = json!({"claim_patch": bytes_json(&claim_patch2), "sums": sums2,
+                       "actual_plain": (0..6).map(|a| codes(&oracle(a, &c2))).collect::<Vec<_>>(),
+                       "actual_patch": (0..6).map(|a| codes(&oracle(a, &claim_patch2))).collect::<Vec<_>>()});
+    }
     let _ = std::fs::remove_dir_all(&dir);
     Out::new(
-        json!({"claim_patch": bytes_json(&claim_patch), "recorded": recorded, "parsed": di_json(&d),
+        json!({"again": again, "claim_patch": bytes_json(&claim_patch), "recorded": recorded, "parsed": di_json(&d),
                "found": found, "size": size, "sums": sums, "all": all, "entry_same": tf(entry_same),
                "calc_ok": tf(calc_ok), "last_is_patch": tf(last_is_patch), "len": codes(&format!("{}", content.len())),
                "actual_plain": actual_plain, "actual_patch": actual_patch}),
